@@ -33,6 +33,16 @@ Line protocol for C14 (stateless: one case per line; see harness/c14.py).
          (names=.. idx=.. int=<bits> lb=.. ub=.. intn=<0|1>), `x=<vector> intn=..` for q, `lseed=0` for
          newlib, the `doe` answer for a DOE.  The session is run with the cache of normalisation data as
          it exists in the code (`Session.run`), proved equal to the cache-free specification.
+  custom mode=<compute|exec> int0=<0|1> lseed=<int> form=<array|dict|dicts> vars=<vars> | <group> | <group> ...
+      CustomDOE with its `samples` setting as the user wrote it (key orders included):
+      form=array: one group per sample `v,v,...`;  form=dicts: one group per sample `name=v,v;name=v`;
+      form=dict: one group per key `name=v,v;v,v;...` (rows of its 2-D array)        -> as `doe`
+      (also a session op: `cdoe mode=.. form=.. | <group> ...`)
+  proc || src=<seq|glob|eng|closed> algo=<id> dim=<d> n=<n> seed=<k> | <row> | ... || ...
+      a history of generations in one process; the rows of a call are what the third-party object
+      returns for its key (seq: points of the sequence of that class and dimension, the longest
+      list given for the key is the sequence; glob: (algo, dim, n, seed); eng: (algo, dim, n, seed);
+      closed: (algo, dim, n))                                    -> U=<matrix> per call joined by ` || `
 var = name:f|i:lb:ub:val (C02 syntax). Matrices are printed `r1;r2;...` (`[]` when empty).
 -/
 
@@ -81,6 +91,12 @@ def viewOf (d : DS) : String :=
     ",".intercalate (d.ranges.map (fun r => s!"{r.1}:{r.2.1}:{r.2.2}"))
   s!"names={showStrList d.names} sizes={showNatList d.sizes} idx={idx} dim={d.dimension} int={bitsStr d.intMask} lb={showOList d.flatLb} ub={showOList d.flatUb} bounded={if boundedOk d then 1 else 0} unbounded={showNatList (unboundedComponents d)}"
 
+def outcomeStr (o : Outcome) : String :=
+  let (res, x) := match o.result with
+    | .ok m => ("ok", m)
+    | .error e => (failStr e, [])
+  s!"res={res} int={if o.ds.intNorm then 1 else 0} lseed={o.lib.seeder.defaultSeed} n={x.length} X={showMatrix x} U={showMatrix o.lib.unitSamples} S={showMatrix o.lib.samples} db={showMatrix (firstOcc o.lib.samples)}"
+
 def doeAnswer (head : List String) (rows : Option Matrix) : String :=
   match kv head "mode", kv head "int0", kv head "hyper", kv head "custom", kv head "ok",
         kv head "uses", kv head "lseed", kv head "seed", kv head "vars" with
@@ -92,13 +108,99 @@ def doeAnswer (head : List String) (rows : Option Matrix) : String :=
       let r : Req := {
         unitSampling := mode == "unit", useUnitHypercube := hyper == "1", custom := custom == "1",
         settingsOk := ok == "1", usesSeed := uses == "1", seed := sd, sampler := fun _ => rows }
-      let o := if mode == "exec" then preRun d lib r else computeDoe d lib r
-      let (res, x) := match o.result with
-        | .ok m => ("ok", m)
-        | .error e => (failStr e, [])
-      s!"res={res} int={if o.ds.intNorm then 1 else 0} lseed={o.lib.seeder.defaultSeed} n={x.length} X={showMatrix x} U={showMatrix o.lib.unitSamples} S={showMatrix o.lib.samples} db={showMatrix (firstOcc o.lib.samples)}"
+      outcomeStr (if mode == "exec" then preRun d lib r else computeDoe d lib r)
     | _, _, _ => "bad-op"
   | _, _, _, _, _, _, _, _, _ => "bad-op"
+
+def parseEntry? (s : String) : Option (String × List Rat) :=
+  match s.splitOn "=" with
+  | [n, v] => (parseRatList? v).map (fun l => (n, l))
+  | _ => none
+
+/-- The `samples` setting of CustomDOE as written by the user. -/
+def parseCustom? (form : String) (groups : List (List String)) : Option CustomSamples :=
+  let gs := groups.filter (fun g => !g.isEmpty)
+  match form with
+  | "array" => (gs.mapM (fun g => match g with
+      | [r] => parseRatList? r
+      | _ => none)).map .array
+  | "dicts" => (gs.mapM (fun g => match g with
+      | [t] => (t.splitOn ";").mapM parseEntry?
+      | _ => none)).map .dicts
+  | "dict" => (gs.mapM (fun g => match g with
+      | [t] =>
+        match t.splitOn "=" with
+        | [n, v] => ((String.splitOn v ";").mapM parseRatList?).map (fun m => (n, m))
+        | _ => none
+      | _ => none)).map .dict
+  | _ => none
+
+def customAnswer (head : List String) (groups : List (List String)) : String :=
+  match kv head "mode", kv head "int0", kv head "lseed", kv head "form", kv head "vars" with
+  | some mode, some int0, some lseed, some form, some vars =>
+    match parseVars? vars, parseInt? lseed, parseCustom? form groups with
+    | some vs, some ls, some cs =>
+      let d : DS := { vars := vs, intNorm := int0 == "1" }
+      let lib : Lib := { seeder := { defaultSeed := ls } }
+      outcomeStr (if mode == "exec" then preRun d lib (customReq d cs) else computeDoe d lib (customReq d cs))
+    | _, _, _ => "bad-op"
+  | _, _, _, _, _ => "bad-op"
+
+/-! the process -/
+
+structure PEntry where
+  c : PCall
+  seed : Int
+  rows : Matrix
+
+def parseSource? : String → Option Source
+  | "seq" => some .otSequence
+  | "glob" => some .otGlobal
+  | "eng" => some .engine
+  | "closed" => some .closedForm
+  | _ => none
+
+def parsePEntry (toks : List String) : Option PEntry :=
+  match toks with
+  | [] => none
+  | _ =>
+    match splitBar toks with
+    | [] => none
+    | head :: rest =>
+      match (kv head "src").bind parseSource?, (kv head "algo").bind (·.toNat?), (kv head "dim").bind (·.toNat?),
+            (kv head "n").bind (·.toNat?), (kv head "seed").bind parseInt?,
+            rest.mapM (fun g => match g with
+              | [r] => parseRatList? r
+              | _ => none) with
+      | some s, some a, some d, some n, some k, some rows => some ⟨⟨s, a, d, n⟩, k, rows⟩
+      | _, _, _, _, _, _ => none
+
+/-- The third-party tables given on the line. -/
+def worldOf (es : List PEntry) : ThirdParty :=
+  { sequence := fun cls dim i =>
+      let cands := es.filter (fun e => e.c.source == .otSequence && e.c.algo == cls && e.c.dim == dim)
+      let best := cands.foldl (fun (acc : Matrix) e => if e.rows.length > acc.length then e.rows else acc) []
+      best.getD i [],
+    experiment := fun a d n rng =>
+      match es.find? (fun e => e.c.source == .otGlobal && e.c.algo == a && e.c.dim == d && e.c.n == n && e.seed == rng.1) with
+      | some e => if rng.2 == 0 then (e.rows, (rng.1, e.rows.length * d)) else ([], rng)
+      | none => ([], rng),
+    seeded := fun a d n k =>
+      match es.find? (fun e => e.c.source == .engine && e.c.algo == a && e.c.dim == d && e.c.n == n && e.seed == k) with
+      | some e => e.rows
+      | none => [],
+    design := fun a d n =>
+      match es.find? (fun e => e.c.source == .closedForm && e.c.algo == a && e.c.dim == d && e.c.n == n) with
+      | some e => e.rows
+      | none => [] }
+
+def procAnswer (groups : List (List String)) : String :=
+  match groups.mapM parsePEntry with
+  | some es =>
+    let w := worldOf es
+    let outs := (Proc.run w {} (es.map (fun e => (e.c, e.seed)))).2
+    " || ".intercalate (outs.map (fun m => s!"U={showMatrix m}"))
+  | none => "bad-op"
 
 /-- Split at the tokens `||`. -/
 def splitBarBar (toks : List String) : List (List String) :=
@@ -130,6 +232,10 @@ def parseSessOp (toks : List String) : Option SOp :=
     | ["setval", x] => (parseRatList? x).map (fun x => .edit (.setArr x))
     | ["q", u] => (parseRatList? u).map .query
     | ["newlib"] => some .newLib
+    | "cdoe" :: kvs =>
+      match kv kvs "mode", kv kvs "form" with
+      | some mode, some form => (parseCustom? form rest).map (fun cs => .custom (mode == "exec") cs)
+      | _, _ => none
     | "doe" :: kvs =>
       match parseRows rest, kv kvs "mode", kv kvs "hyper", kv kvs "custom", kv kvs "ok", kv kvs "uses", kv kvs "seed" with
       | some rows, some mode, some hyper, some custom, some ok, some uses, some seed =>
@@ -147,7 +253,7 @@ def sessOut (s : Session) (op : SOp) (o : SOut) : String :=
   | .edit _, _ => stateStr s.cds.ds
   | .query _, .vec x => s!"x={showRatList x} intn={if s.cds.ds.intNorm then 1 else 0}"
   | .newLib, _ => s!"lseed={s.lib.seeder.defaultSeed}"
-  | .doe _ _, .doe res =>
+  | .custom _ _, .doe res | .doe _ _, .doe res =>
     let (r, x) := match res with
       | .ok m => ("ok", m)
       | .error e => (failStr e, [])
@@ -192,6 +298,10 @@ def answer (line : String) : String :=
     match splitBarBar toks with
     | ("sess" :: head) :: ops => sessAnswer head ops
     | _ => "bad-op"
+  else if toks.head? == some "proc" then
+    match splitBarBar toks with
+    | ["proc"] :: calls => procAnswer calls
+    | _ => "bad-op"
   else
   let groups := splitBar toks
   match groups with
@@ -206,6 +316,7 @@ def answer (line : String) : String :=
       match parseRows rest with
       | some rows => doeAnswer kvs rows
       | none => "bad-op"
+    | "custom" :: kvs => customAnswer kvs rest
     | ["seeder", s0, reqs] =>
       match parseInt? s0, parseSeedReqs reqs with
       | some s0, some reqs =>
